@@ -22,7 +22,7 @@ def run(ctx):
         "remote-tag pair; both sides exclude the name HEAD; export builds ref names only through these writers.")
     ctx.clauses = ["writer and parser agree on namespace, kind, locality and piece order", "HEAD and the reserved "
                    "remote are excluded on both sides", "no second ref-name formatter in import/export"]
-    ctx.not_decided = ["injectivity for names containing '/' inside a remote name (string arithmetic)"]
+    ctx.not_decided = ["remote names already present in .git/config that jj never validated"]
     F = ctx.F
     w1 = writer_table(ctx, G + "to_git_ref_name", None)
     p1 = parser_table(ctx, G + "parse_git_ref")
@@ -34,6 +34,7 @@ def run(ctx):
     compare(ctx, "C33.a/remote-tag-refs", w2, p2)
     rule_b(ctx)
     rule_c(ctx)
+    rule_d(ctx)
 
 
 def _role(t):
@@ -109,6 +110,16 @@ def writer_table(ctx, root, fixed_kind):
                                 any(_is_local_const(a) for a in cond[2]):
                             loc = "local"
             table.add((fixed_kind or kind, loc, shape))
+    # the remote/name boundary is the FIRST '/' (remote names contain no '/', bookmark and tag names may)
+    splits = [c for c in b.calls if not c.cleanup and name_matches(c.res or c.decl or "", "re:str>::r?split(_once|n|_terminator)?$")]
+    for c in splits:
+        nm = (c.res or c.decl).split("::")[-1]
+        sep = strip(sl.call_arg(c, 1))
+        okc = nm == "split_once" and isinstance(sep, tuple) and sep[0] == "const" and sep[1] in ("/", ord("/"))
+        ctx.ob("C33.a/remote-split-at-first-separator", f"{root.split('::')[-1]}|{nm}", okc,
+               "split_once('/'): remote = text before the first '/', name = the rest (names may contain '/')" if okc else
+               f"{nm}({show(sep)[:20]}) does not split `<remote>/<name>` at the first '/': a name containing '/' is not parsed "
+               f"back into the symbol it was written from", where=c.where())
     ctx.info.setdefault("tables", {})[root] = sorted(map(str, table))
     return table
 
@@ -157,6 +168,16 @@ def parser_table(ctx, root):
                             kinds.add(r["variant"])
                     for kd in kinds or {None}:
                         table.add((kd, loc, shape))
+    # the remote/name boundary is the FIRST '/' (remote names contain no '/', bookmark and tag names may)
+    splits = [c for c in b.calls if not c.cleanup and name_matches(c.res or c.decl or "", "re:str>::r?split(_once|n|_terminator)?$")]
+    for c in splits:
+        nm = (c.res or c.decl).split("::")[-1]
+        sep = strip(sl.call_arg(c, 1))
+        okc = nm == "split_once" and isinstance(sep, tuple) and sep[0] == "const" and sep[1] in ("/", ord("/"))
+        ctx.ob("C33.a/remote-split-at-first-separator", f"{root.split('::')[-1]}|{nm}", okc,
+               "split_once('/'): remote = text before the first '/', name = the rest (names may contain '/')" if okc else
+               f"{nm}({show(sep)[:20]}) does not split `<remote>/<name>` at the first '/': a name containing '/' is not parsed "
+               f"back into the symbol it was written from", where=c.where())
     ctx.info.setdefault("tables", {})[root] = sorted(map(str, table))
     return table
 
@@ -237,3 +258,42 @@ def rule_c(ctx):
         ctx.ob("C33.c/ref-name-formatters", r, ok, "tabled" + (" (export cone)" if in_export else "") if ok else
                "a function builds or parses Git ref names outside the paired writer/parser"
                + (" inside the export cone" if in_export else ""))
+
+
+def rule_d(ctx):
+    """the premise of the first-separator split: remote names that enter the view through add/rename/fetch/push contain
+    no '/' and are not the reserved local remote"""
+    F = ctx.F
+    from jjv.lib import find_ok_nodes, ok_exit_nodes
+    fid = G + "validate_remote_name"
+    b = F.body(fid)
+    if not ctx.anchor("C33.d", fid, [b] if b is not None else [], 1):
+        return
+    ctx.fn_seen(fid)
+    sl = F.slicer(fid)
+    oks, errs, _ = ok_exit_nodes(F, b)
+    slash = [c for c in b.calls if not c.cleanup and name_matches(c.res or c.decl or "", "re:str>::contains$")]
+    okc = False
+    for c in slash:
+        sep = strip(sl.call_arg(c, 1))
+        if isinstance(sep, tuple) and sep[0] == "const" and sep[1] in ("/", ord("/")):
+            tr, fa = bool_edges(F, b, c)
+            # Ok only reachable through the false edge
+            p = b.path_avoiding([0], list(oks), set(fa)) if oks and fa else [0]
+            okc = p is None
+    ctx.ob("C33.d/remote-names-have-no-slash", fid, okc, "validate_remote_name returns Ok only when !name.contains('/')" if okc else
+           "validate_remote_name accepts a remote name containing '/': refs/remotes/<remote>/<name> is no longer uniquely splittable")
+    callers = {c.body.root for c in F.all_calls_to(fid) if not c.cleanup}
+    need = {G + "add_remote", G + "rename_remote"}
+    ctx.ob("C33.d/validated-where-remotes-are-named", fid, need <= callers,
+           f"called from {sorted(x.split('::')[-1] for x in callers)}" if need <= callers else
+           f"remote names are no longer validated in {sorted(x.split('::')[-1] for x in need - callers)}")
+    for r in sorted(need & callers):
+        for bb in bodies_with_(F, r, fid):
+            for c in bb.calls_to(fid):
+                ctx.ob("C33.d/validation-enforced", r, bool(find_ok_nodes(F, bb, c)), "?-checked", where=c.where())
+
+
+def bodies_with_(F, root, pat):
+    from jjv.lib import bodies_with
+    return bodies_with(F, root, pat)
